@@ -176,6 +176,18 @@ func gen(g *vh.Gen) {
 			g.Emit("smtp", append(c.Fields(), smtpd.NetField([][]byte{stream[:k], stream[k:]}, "eof"))...)
 		}
 	}
+	// the client leaves at every byte offset of an AUTH LOGIN exchange (the session is in its LOGIN / PASSWORD states
+	// only between the 334 replies and the end of the password line), with and without an envelope begun before
+	ga := g.Side("c03-auth-cuts")
+	for i := 0; i < g.N(3, 40); i++ {
+		c, _ := smtpd.GenCfg(ga, smtpd.Opts{})
+		c.DA, c.DS, c.Rej, c.Dis, c.RejO = true, true, "", "", ""
+		pre := []string{"EHLO a.example\r\n", "HELO a.example\r\n", "EHLO a.example\r\nMAIL FROM:<s@a.example>\r\nRCPT TO:<r@a.example>\r\nRSET\r\n"}[i%3]
+		stream := []byte(pre + "AUTH LOGIN\r\ndXNlcg==\r\ncGFzcw==\r\nNOOP\r\nQUIT\r\n")
+		for k := len(pre); k <= len(stream); k++ {
+			ga.Emit("smtp", append(c.Fields(), smtpd.NetField([][]byte{stream[:k]}, []string{"eof", "eof", "idle", "err"}[(k+i)%4]))...)
+		}
+	}
 	// lock-step clients (see smtpd.LockStepField)
 	for i := 0; i < g.N(30, 1500); i++ {
 		c, pool := smtpd.GenCfg(g, o)
